@@ -1,13 +1,15 @@
 import NasVerif.Model.Security
 import NasVerif.Spec.EEA
 import NasVerif.Proofs.Snow3gRefine
+import NasVerif.Proofs.ZucRefine
 import NasVerif.Gen.Unrecognised
 /-!
 # C06 — NEA1/NEA2/NEA3 equal the standard 128-EEA1/2/3 functions
 
 Proved here (kernel-checked): the lookup tables regenerated from the source equal the standards' tables; the model of
 `snow3g.go` generates exactly the SNOW 3G keystream of the specification for every key, IV and length; NEA2 is
-128-EEA2 for every block cipher. The remaining refinement steps (ZUC LFSR arithmetic, the byte loops of NEA1/NEA3
+128-EEA2 for every block cipher; the model of `zuc.go` generates the ZUC keystream of the specification
+(`Proofs/ZucRefine.lean`). The remaining refinement steps (the byte loops of NEA1/NEA3
 against the bit-string definitions of f8 / 128-EEA3) are stated below as `…_statement` and are checked on every run by
 the direct implementation-vs-specification differential stream (`secspec`), not yet by proof: level is "proof, partial".
 -/
@@ -54,10 +56,15 @@ theorem nasEncrypt2_spec (E : Bytes → Bytes → Bytes) (key : Bytes) (count : 
 
 /-! ### not yet proved (checked by the `secspec` differential stream on every run) -/
 
-/-- ZUC: the model of zuc.go generates the specification's keystream -/
-def zuc_keystream_statement : Prop :=
-  ∀ (k iv : Bytes) (n : Nat), k.length = 16 → iv.length = 16 →
-    Zuc.Zuc (Security.toBV8 k) (Security.toBV8 iv) n = Spec.ZUC.keystream (k.map (·.toNat)) (iv.map (·.toNat)) n
+/-- ZUC: the model of zuc.go generates the specification's keystream, for every key, IV and number of words
+(the LFSR refinement: end-around-carry fold = reduction mod 2^31 - 1 on representatives in [1, p]) -/
+theorem zuc_keystream (k iv : Bytes) (n : Nat) :
+    Zuc.Zuc (Security.toBV8 k) (Security.toBV8 iv) n = Spec.ZUC.keystream (k.map (·.toNat)) (iv.map (·.toNat)) n := by
+  have h := Proofs.ZucRefine.Zuc_eq ⟨tables_eq.2.2.1, tables_eq.2.2.2.1, tables_eq.2.2.2.2⟩ (Security.toBV8 k) (Security.toBV8 iv) n
+  have e (l : Bytes) : (Security.toBV8 l).map BitVec.toNat = l.map (·.toNat) := by
+    simp [Security.toBV8, List.map_map, Function.comp_def]
+  rw [e, e] at h
+  exact h
 
 /-- NEA1 = UEA2 f8 on the first LENGTH bits; the rest of the output is what the code leaves (input octets untouched
 beyond ⌈LENGTH/8⌉ are zero) -/
